@@ -150,6 +150,14 @@ class E3Check(Check):
         objs = [gen_object_spec(rng, small=not big) for _ in range(nobj)]
         if rng.random() < (0.05 if tier == "thorough" else 0.02):
             objs[0]["n"] = rng.randint(65, 200)  # the quantifier's upper end
+        if rng.random() < 0.05:
+            # all objects of the case geo-referenced: UTM- or ECEF-sized
+            # coordinates, an extent of metres
+            off = rng.choice([[5.0e5, 5.4e6, 300.0], [4.1e6, 6.2e5, 4.8e6]])
+            sc = rng.choice([1.0, 5.0])
+            for o in objs:
+                o["profile"]["offset"] = off
+                o["profile"]["scale"] = sc
         # make equal-length companions likely (align / APE need them)
         for k in range(1, nobj):
             if rng.random() < 0.6:
